@@ -27,7 +27,7 @@ ASSUMPTIONS = [
     "families whose closing-point coincidence differs between masters are excluded by construction (P20)",
 ]
 N = {"quick": (8, 45), "thorough": (16, 300)}
-FLOORS = {"ttf": 0.262, "cff2": 0.088, "variableFeatures=False": 0.2, "intermediate-master": 0.15, "kerning-pair-missing-in-a-master": 0.149}  # a third of the measured frequency: a starving generator is a harness error, sampling noise is not
+FLOORS = {"ttf": 0.262, "cff2": 0.088, "variableFeatures=False": 0.1, "intermediate-master": 0.15, "kerning-pair-missing-in-a-master": 0.149}  # a third of the measured frequency: a starving generator is a harness error, sampling noise is not
 
 LAT = ["a", "b", "c", "d", "e", "f"]
 
